@@ -118,9 +118,57 @@ def detect(name, props):
     json.dump(m, open(mp, "w"), indent=1)
 
 
+def revalidate(name):
+    """Re-confirm a kept change against /repo's current HEAD (after repairs moved the base)."""
+    d = f"{SEEDED}/{name}"
+    meta = json.load(open(f"{d}/meta.json"))
+    fresh_wt()
+    res = {"name": name}
+    rc, out = sh(f"git apply {d}/patch.diff", cwd=WT)
+    res["applies"] = rc == 0
+    if rc == 0:
+        rc, out = sh("go build ./...", cwd=WT)
+        res["builds"] = rc == 0
+    pkg = meta.get("demo_pkg_dir", "").strip("./")
+    demo = f"{d}/zz_demo_test.go.txt"
+    if res.get("builds") and pkg and os.path.exists(demo):
+        shutil.copy(demo, f"{WT}/{pkg}/zz_demo_test.go")
+        race = "-race " if "race" in open(demo).read()[:4000].lower() and name.startswith("C17") else ""
+        run = "-run 'ZZDemo|TestDemo|TestZZ' "
+        rc1, out1 = sh(f"timeout 300 go test {race}-vet=off -count=1 {run}./{pkg}/", cwd=WT)
+        res["demo_fails_with_patch"] = rc1 != 0
+        sh(f"git apply -R {d}/patch.diff", cwd=WT)
+        rc2, out2 = sh(f"timeout 300 go test {race}-vet=off -count=1 {run}./{pkg}/", cwd=WT)
+        res["demo_passes_without"] = rc2 == 0
+        if rc2 != 0:
+            res["demo_without_log"] = out2[-600:]
+        os.remove(f"{WT}/{pkg}/zz_demo_test.go")
+        sh(f"git apply {d}/patch.diff", cwd=WT)
+        ok = False
+        for attempt in range(3):
+            rc, out = sh("timeout 600 go test -vet=off -count=1 ./... 2>&1 | grep -E '^(FAIL|---|panic|ok)' | grep -v '^ok'", cwd=WT)
+            real = [l for l in out.splitlines() if l.startswith("--- FAIL") and not any(f in l for f in FLAKY)]
+            if not real:
+                ok = True
+                break
+        res["suite_passes_with_patch"] = ok
+        if not ok:
+            res["suite_log"] = out[-500:]
+    head = subprocess.run("git -C /repo rev-parse --short HEAD", shell=True, stdout=subprocess.PIPE, text=True).stdout.strip()
+    res["base"] = head
+    meta["reconfirmed"] = res
+    json.dump(meta, open(f"{d}/meta.json", "w"), indent=1)
+    print(json.dumps(res), flush=True)
+    sh(f"git -C /repo worktree remove --force {WT}")
+    sh("git -C /repo worktree prune")
+
+
 if __name__ == "__main__":
     if sys.argv[1] == "validate":
         for pid in sys.argv[2:] or sorted(os.listdir(SRC)):
             validate(pid)
     elif sys.argv[1] == "detect":
         detect(sys.argv[2], sys.argv[3:])
+    elif sys.argv[1] == "revalidate":
+        for n in sys.argv[2:] or sorted(os.listdir(SEEDED)):
+            revalidate(n)
